@@ -37,6 +37,19 @@ func (c17) Gen(r *rand.Rand, tier string, run int) *core.Case {
 		c.Net.Capacity = []int{16, 64}[r.IntN(2)]
 	}
 	c.Params["prefill"] = []int{0, 0, 0, 7, 9, 10, 11}[r.IntN(7)]
+	switch r.IntN(96) {
+	case 0, 1:
+		// a connection that has seen a lot: the first slot of the table has
+		// been given out and taken back about a thousand (two, four thousand)
+		// times before the race
+		c.Params["aged"] = []int{1022, 1023, 1024, 1025, 2047, 2048, 4096}[r.IntN(7)]
+		c.Params["prefill"] = []int{0, 0, 7}[r.IntN(3)]
+	case 2:
+		// a crowded table: more than a thousand handlers are registered (and
+		// stay) when the race begins
+		c.Params["crowd"] = []int{1020, 1030, 1100, 2060}[r.IntN(4)]
+		c.Params["prefill"] = 0
+	}
 	actors := 2 + r.IntN(4)
 	// 0: nobody shuts down inside the race (main closes at the end); 4: the
 	// peer goes away in the middle of a message; 5: the peer sends something
@@ -115,6 +128,10 @@ type c17state struct {
 	finalClose  int64
 	lostSeq     int64 // the peer ended the connection (or broke the stream) at this moment
 	settled     int64 // ... and everything that followed from it had happened by this one
+	// the handlers of a crowded table (nobody removes them, they match
+	// nothing): identifier and the moments their close callback ran
+	crowdIDs    []int
+	crowdClosed [][]int64
 }
 
 func (st *c17state) lost() {
@@ -174,6 +191,43 @@ func (c17) Run(c *core.Case, env *core.Env) {
 	}
 	// handlers registered before the race, so that the registrations of the
 	// race meet a table that is nearly full, full, or already grown
+	if n := c.P("aged", 0); n > 0 {
+		// the first and the last tenant of the slot are judged like everybody
+		// (their identifiers are known to the actors, who may try them again);
+		// the others come and go
+		c17remove(env, st, 98, c17make(env, st, 98, 2, 0).id)
+		never := func(*net.Header) (bool, bool) { return false, true }
+		zzsim.Calm(true)
+		for i := 0; i < n-2; i++ {
+			q := make(chan *net.Message, 1)
+			id := e.MakeHandler(never, q, func(error) {})
+			if err := e.RemoveHandler(id); err != nil {
+				env.Violate("remove-live-refused", "tenant %d of the first slot: RemoveHandler(%d) of the handler just registered, nobody else at work: %v", i+2, id, err)
+				break
+			}
+		}
+		zzsim.Calm(false)
+		c17remove(env, st, 98, c17make(env, st, 98, 2, 0).id)
+		env.Probe("slots-given-out-a-thousand-times-before-the-race")
+	}
+	if n := c.P("crowd", 0); n > 0 {
+		never := func(*net.Header) (bool, bool) { return false, true }
+		st.crowdIDs = make([]int, n)
+		st.crowdClosed = make([][]int64, n)
+		zzsim.Calm(true)
+		for i := 0; i < n; i++ {
+			i := i
+			q := make(chan *net.Message, 1)
+			st.crowdIDs[i] = e.MakeHandler(never, q, func(error) {
+				seq := zzsim.Seq()
+				st.mu.Lock()
+				st.crowdClosed[i] = append(st.crowdClosed[i], seq)
+				st.mu.Unlock()
+			})
+		}
+		zzsim.Calm(false)
+		env.Probe("tables-of-more-than-a-thousand-handlers")
+	}
 	for i := 0; i < c.P("prefill", 0); i++ {
 		c17make(env, st, 98, 2, 0)
 	}
@@ -536,6 +590,27 @@ func (c17) Check(c *core.Case, env *core.Env, res zzsim.Result, v *core.Verdict)
 					bad("not-closed-when-the-connection-was-lost", "%s: the peer ended the connection at %d; when nothing could run any more (%d) the close callback had not run (it ran at %v, the application's own Close came at %d)", name, st.lostSeq, st.settled, r.closerSeqs, st.finalClose)
 				}
 			}
+		}
+	}
+	// the handlers of a crowded table: nobody removes them, so their close
+	// callback runs once, when the connection shuts down and not before; and
+	// their identifiers are theirs alone
+	crowd := map[int]int{}
+	for i, id := range st.crowdIDs {
+		if j, ok := crowd[id]; ok && id >= 0 {
+			bad("id-reused-while-live", "handlers %d and %d of a table of %d, registered one after the other and never removed, both hold id %d", j, i, len(st.crowdIDs), id)
+		}
+		crowd[id] = i
+		cs := st.crowdClosed[i]
+		if len(cs) != 1 {
+			bad("closer-not-once", "handler %d (id %d) of a table of %d handlers nobody removes: close callback ran %d times", i, id, len(st.crowdIDs), len(cs))
+		} else if cs[0] < st.shutdownSeq {
+			bad("closed-by-the-removal-of-another", "handler %d (id %d) of a table of %d handlers nobody removes: its close callback ran at %d, before any shutdown began (%d)", i, id, len(st.crowdIDs), cs[0], st.shutdownSeq)
+		}
+	}
+	for _, r := range st.hs {
+		if j, ok := crowd[r.id]; ok && r.makeRet != 0 && r.id >= 0 {
+			bad("id-reused-while-live", "handler h%d was given id %d, which handler %d of the crowded table holds and never gave back", r.idx, r.id, j)
 		}
 	}
 	// identifiers are only reused after removal
